@@ -27,80 +27,84 @@ theorem concatMapE_mem {α β ε} (f : α → Except ε (List β)) (l : List α)
           exact ⟨a', List.mem_cons_of_mem _ ha', ra', hra', hx'⟩
 
 /-- a generated symbol never ends in `s` (so it is none of the helper names `__romPos`, …). -/
-def endsOk (s : Str) : Prop := s.getLast? ≠ some 's'
+def endsOk (s : Str) : Prop := s.getLast? ≠ some 's' ∧ s.getLast? ≠ some '.'
 
-theorem endsOk_append (a suf : Str) (c : Char) (hs : suf.getLast? = some c) (hc : c ≠ 's') : endsOk (a ++ suf) := by
+theorem endsOk_append (a suf : Str) (c : Char) (hs : suf.getLast? = some c) (hc : c ≠ 's') (hd : c ≠ '.') : endsOk (a ++ suf) := by
   unfold endsOk
   rw [List.getLast?_append, hs]
-  simp [hc]
+  simp [hc, hd]
 
 theorem endsOk_ne (s t : Str) (h : endsOk s) (ht : t.getLast? = some 's') : s ≠ t := by
-  intro he; subst he; exact h ht
+  intro he; subst he; exact h.1 ht
+
+/-- in particular a generated symbol is never the location counter. -/
+theorem endsOk_ne_dot (s : Str) (h : endsOk s) : s ≠ c!"." := by
+  intro he; subst he; exact h.2 (by decide)
 
 theorem linkerOffset_ok (st : Style) (n : Str) : endsOk (st.linkerOffset n) := by
   cases st
-  · exact endsOk_append _ _ 'T' (by decide) (by decide)
-  · exact endsOk_append _ _ 't' (by decide) (by decide)
+  · exact endsOk_append _ _ 'T' (by decide) (by decide) (by decide)
+  · exact endsOk_append _ _ 't' (by decide) (by decide) (by decide)
 
 theorem secStart_ok (st : Style) (n sec : Str) : endsOk (st.secStart n sec) := by
   cases st
-  · exact endsOk_append _ _ 'T' (by decide) (by decide)
-  · exact endsOk_append _ _ 't' (by decide) (by decide)
+  · exact endsOk_append _ _ 'T' (by decide) (by decide) (by decide)
+  · exact endsOk_append _ _ 't' (by decide) (by decide) (by decide)
 
 theorem secEnd_ok (st : Style) (n sec : Str) : endsOk (st.secEnd n sec) := by
   cases st
-  · exact endsOk_append _ _ 'D' (by decide) (by decide)
-  · exact endsOk_append _ _ 'd' (by decide) (by decide)
+  · exact endsOk_append _ _ 'D' (by decide) (by decide) (by decide)
+  · exact endsOk_append _ _ 'd' (by decide) (by decide) (by decide)
 
 theorem secSize_ok (st : Style) (n sec : Str) : endsOk (st.secSize n sec) := by
   cases st
-  · exact endsOk_append _ _ 'E' (by decide) (by decide)
-  · exact endsOk_append _ _ 'e' (by decide) (by decide)
+  · exact endsOk_append _ _ 'E' (by decide) (by decide) (by decide)
+  · exact endsOk_append _ _ 'e' (by decide) (by decide) (by decide)
 
 theorem segVramStart_ok (st : Style) (n : Str) : endsOk (st.segVramStart n) := by
   cases st
-  · exact endsOk_append _ _ 'M' (by decide) (by decide)
-  · exact endsOk_append _ _ 't' (by decide) (by decide)
+  · exact endsOk_append _ _ 'M' (by decide) (by decide) (by decide)
+  · exact endsOk_append _ _ 't' (by decide) (by decide) (by decide)
 
 theorem segVramEnd_ok (st : Style) (n : Str) : endsOk (st.segVramEnd n) := by
   cases st
-  · exact endsOk_append _ _ 'D' (by decide) (by decide)
-  · exact endsOk_append _ _ 'd' (by decide) (by decide)
+  · exact endsOk_append _ _ 'D' (by decide) (by decide) (by decide)
+  · exact endsOk_append _ _ 'd' (by decide) (by decide) (by decide)
 
 theorem segVramSize_ok (st : Style) (n : Str) : endsOk (st.segVramSize n) := by
   cases st
-  · exact endsOk_append _ _ 'E' (by decide) (by decide)
-  · exact endsOk_append _ _ 'e' (by decide) (by decide)
+  · exact endsOk_append _ _ 'E' (by decide) (by decide) (by decide)
+  · exact endsOk_append _ _ 'e' (by decide) (by decide) (by decide)
 
 theorem segRomStart_ok (st : Style) (n : Str) : endsOk (st.segRomStart n) := by
   cases st
-  · exact endsOk_append _ _ 'T' (by decide) (by decide)
-  · exact endsOk_append _ _ 't' (by decide) (by decide)
+  · exact endsOk_append _ _ 'T' (by decide) (by decide) (by decide)
+  · exact endsOk_append _ _ 't' (by decide) (by decide) (by decide)
 
 theorem segRomEnd_ok (st : Style) (n : Str) : endsOk (st.segRomEnd n) := by
   cases st
-  · exact endsOk_append _ _ 'D' (by decide) (by decide)
-  · exact endsOk_append _ _ 'd' (by decide) (by decide)
+  · exact endsOk_append _ _ 'D' (by decide) (by decide) (by decide)
+  · exact endsOk_append _ _ 'd' (by decide) (by decide) (by decide)
 
 theorem segRomSize_ok (st : Style) (n : Str) : endsOk (st.segRomSize n) := by
   cases st
-  · exact endsOk_append _ _ 'E' (by decide) (by decide)
-  · exact endsOk_append _ _ 'e' (by decide) (by decide)
+  · exact endsOk_append _ _ 'E' (by decide) (by decide) (by decide)
+  · exact endsOk_append _ _ 'e' (by decide) (by decide) (by decide)
 
 theorem classStart_ok (st : Style) (n : Str) : endsOk (st.classStart n) := by
   cases st
-  · exact endsOk_append _ _ 'T' (by decide) (by decide)
-  · exact endsOk_append _ _ 't' (by decide) (by decide)
+  · exact endsOk_append _ _ 'T' (by decide) (by decide) (by decide)
+  · exact endsOk_append _ _ 't' (by decide) (by decide) (by decide)
 
 theorem classEnd_ok (st : Style) (n : Str) : endsOk (st.classEnd n) := by
   cases st
-  · exact endsOk_append _ _ 'D' (by decide) (by decide)
-  · exact endsOk_append _ _ 'd' (by decide) (by decide)
+  · exact endsOk_append _ _ 'D' (by decide) (by decide) (by decide)
+  · exact endsOk_append _ _ 'd' (by decide) (by decide) (by decide)
 
 theorem classSize_ok (st : Style) (n : Str) : endsOk (st.classSize n) := by
   cases st
-  · exact endsOk_append _ _ 'E' (by decide) (by decide)
-  · exact endsOk_append _ _ 'e' (by decide) (by decide)
+  · exact endsOk_append _ _ 'E' (by decide) (by decide) (by decide)
+  · exact endsOk_append _ _ 'e' (by decide) (by decide) (by decide)
 
 /-- the only lines the per-file emitter can produce: an input statement (with the segment's
 wildcard flag), a pad `. += 0x…`, or a linker-offset symbol `<name>_OFFSET = .`. -/
